@@ -61,7 +61,7 @@ def out_file(draw, i):
         f = {'name': name, 'kind': 'text',
              'lines': draw(text_strategy()),
              'final_newline': draw(st.booleans())}
-        if draw(st.integers(0, 7)) == 0:
+        if draw(st.integers(0, 4)) == 0:
             # a long file: more plain-ASCII lines than any sniffing of the
             # head of the file would read, then the drawn lines, then one
             # that is certainly not ASCII
@@ -103,13 +103,16 @@ def command_case(draw, tier='quick'):
         how = 'default'
     if how == 'glob' and any('.' not in f['name'] for f in files):
         how = 'explicit'    # no extension to build a sensible glob from
+    n_iter = draw(st.sampled_from([1, 2, 2, 2, 3]))
+    if any(f.get('long_prefix') for f in files) and draw(st.booleans()):
+        n_iter = 1      # nothing but the script writer reads the file
     return {
         'stdout': draw(text_strategy()),
         'stderr': draw(st.one_of(st.just([]), text_strategy())),
         'files': files,
         'exit': exit_code,
         'how': how,
-        'n': draw(st.sampled_from([1, 2, 2, 2, 3])),
+        'n': n_iter,
         'no_stdout': draw(st.sampled_from([False, False, False, True])),
         'no_stderr': draw(st.sampled_from([False, False, False, True])),
         'script': draw(st.sampled_from(['rel', 'abs'])),
